@@ -336,6 +336,10 @@ def run_loads(binp, docs, tag, want=("tokens", "tree"), a2ml=None, timeout=3000)
     return results
 
 
+DOCGEN_A2ML_TEXT = docgen.special("A2ML")[2].strip()
+DOCGEN_A2ML_DECLS = [{"d": "block", "tag": "IF_DATA", "seq": False,
+                      "m": {"t": {"k": "struct", "name": "", "ref": False, "ms": [{"t": {"k": "int"}, "dims": []}]}, "dims": []}}]
+
 LAYOUT_KEYS = ("line", "uid", "start_offset", "end_offset", "incfile")
 
 
@@ -440,6 +444,16 @@ def load_event(r, strict, case=None, built_from=None):
     if "tokens" not in r or "panic" in r or "ok" not in r:
         return None
     ev = {"toks": a2ldoc.tokens_event(r["tokens"]), "strict": strict, "out": outcome_of(r)}
+    # the definitions in force: the A2ML block the document generator writes (other A2ML texts: see a2mlok below)
+    has_ifdata = any(t["t"] == "id" and t["v"] == "IF_DATA" for t in ev["toks"])
+    defs = []
+    for i, t in enumerate(ev["toks"]):
+        if t["t"] == "str" and i >= 2 and ev["toks"][i - 1]["v"] == "A2ML" and ev["toks"][i - 2]["t"] == "begin":
+            if t["v"].strip() == DOCGEN_A2ML_TEXT:
+                defs = [{"decls": DOCGEN_A2ML_DECLS, "infile": True}]
+            elif not (case or built_from or {}).get("what", "").startswith("a2ml_"):
+                return None          # an A2ML text this driver knows nothing about (usable or not?): not judged here (C18, C03 hostile)
+    ev["defs"] = defs
     src = case if case is not None else built_from
     broken = src is not None and src.get("k") == "file" and src.get("what") in ("a2ml_syntax", "a2ml_no_ifdata_block", "a2ml_undeclared_type")
     for i, t in enumerate(ev["toks"]):
